@@ -20,7 +20,10 @@
 //
 // Files: c11_test.go (laws, matchers, corpus enumerator, replay), synth_test.go (binary cmap
 // serialisers written from the OpenType specification, rapid generator, synthetic property),
-// runeset_test.go (RuneSet state machine, ScriptSet/LangSet round trips).
+// runeset_test.go (RuneSet state machine, ScriptSet/LangSet round trips), font_test.go (the synthetic
+// table inside a minimal font file: loaded face, fresh-buffer and shared-buffer scans), seq_test.go
+// (sequences of fonts through one directory scan: every footprint against the font scanned alone
+// and against the loaded face).
 package c11
 
 import (
@@ -730,6 +733,13 @@ func replayFile(t *testing.T, path string) {
 			t.Fatalf("%s: %v", path, err)
 		}
 		checkSynth(t, &c)
+	case "scanseq":
+		var c seqCase
+		if err := json.Unmarshal(raw, &c); err != nil {
+			t.Fatalf("%s: %v", path, err)
+		}
+		seqDir = t.TempDir()
+		checkScanSequence(t, &c)
 	case "runeset":
 		var c runeSetCase
 		if err := json.Unmarshal(raw, &c); err != nil {
